@@ -174,6 +174,19 @@ def run_standin(job):
     return res
 
 
+def _module_assumptions(modnames):
+    """Assumptions a contract module declares (ASSUMPTIONS = [...]): trusted behaviour of what its stubs
+    stand for, idealisations of its models - copied into the evidence of every run."""
+    out = set()
+    for m in modnames:
+        try:
+            mod = importlib.import_module(m)
+        except Exception:  # noqa: BLE001
+            continue
+        out |= set(getattr(mod, "ASSUMPTIONS", []))
+    return out
+
+
 def run_instance(job):
     """Worker: explore all paths of one lemma instance."""
     (modname, lemma_name, label, tier, mutations, findings, float_mode) = job
@@ -661,7 +674,7 @@ def summarize(prop, tier, results, wall, findings, mutations, quiet=False):
             "exit_code": code,
             "messages": lines[:50],
         },
-        "assumptions": sorted({"logging calls never raise (A-LOG)", "str()/repr()/f-string text used only in messages is opaque"} | ({"machine float arithmetic treated as mathematical (REAL encoding)"} if any(r["assumed_real"] for r in results) else set())),
+        "assumptions": sorted({"logging calls never raise (A-LOG)", "str()/repr()/f-string text used only in messages is opaque"} | ({"machine float arithmetic treated as mathematical (REAL encoding)"} if any(r["assumed_real"] for r in results) else set()) | _module_assumptions({r["module"] for r in results})),
         "wall_s": round(wall, 3),
         "violations": len({(r["lemma"], r["instance"], v["site"]) for r, v in refuted}) if code == 1 else 0,
     }
